@@ -1,6 +1,11 @@
 """C12 — water-filling returns the capacity-optimal power allocation (DESIGN.md §5 C12).
 
-Tie to source: `lean/PyPhysim/Model/C12.lean` is a hand model of
+Tie to source (a), regeneration: `harness/gen/c12.py` symbolically executes the current AST of
+`pyphysim/comm/waterfilling.py:doWF` and re-emits `lean/PyPhysim/Generated/C12WaterFilling.lean`
+(sort direction, initial removed count, recomputation + loop test as a function of the loop
+counter, remainder split, scatter, returned level); `generated_wf_matches_model` proves it equal
+to the hand model for all inputs.
+Tie to source (b), correspondence: `lean/PyPhysim/Model/C12.lean` is a hand model of
 `pyphysim/comm/waterfilling.py:doWF`; it is run at exact rationals by the
 compiled driver `drv_c12` on the *same* binary64 inputs (sent as exact `p/q`)
 and compared with the real code's output at rtol 1e-9 (allocation, level) and
